@@ -810,6 +810,12 @@ class Calls(Interp):
 
     def isinstance1(self, v, k):
         cname = self.class_name_of(k)
+        if cname == "NoneType":
+            if isinstance(v, VOpt):
+                return v.isnone
+            if isinstance(v, VObj):
+                return v.t == PyNone
+            return z3.BoolVal(v is VNone)
         if isinstance(v, VOpt):
             return z3.And(z3.Not(v.isnone), self.isinstance1(v.val, k))
         if v is VNone:
